@@ -199,9 +199,19 @@ func famAppSend16(w *World, c *Case, rng *rand.Rand) {
 		{ID: "h2", Method: "ClientStream", Client: []Op{{K: "open"}, {K: "send", N: 10}, {K: "close"}, {K: "recvall"}},
 			Handler: append(append([]Op{{K: "recvall"}}, more(Op{K: "send", N: 5})...), Op{K: "ret"})},
 	}
+	// handler: a second send after a first one that FAILED half-way (it parked on the caller's
+	// window - the caller reads late - and the deadline only the serving side knows expired); by the
+	// time of the second send the caller has read and the window is open again
+	specs = append(specs, &RPCSpec{ID: "h3", Method: "ClientStream", GrpcTimeout: "50m",
+		Client:  []Op{{K: "open"}, {K: "send", N: 10}, {K: "close"}, {K: "sync", Name: "read16"}, {K: "recvall"}},
+		Handler: []Op{{K: "recvall"}, {K: "send", N: 100000}, {K: "sync", Name: "again16"}, {K: "send", N: 10}, {K: "ret"}}})
 	for _, s := range specs {
 		w.Env.StartRPC(context.Background(), w.Ch, s)
 	}
+	w.Advance(200 * time.Millisecond)
+	w.Env.Signal("read16")
+	w.Advance(100 * time.Millisecond)
+	w.Env.Signal("again16")
 	w.Advance(time.Minute)
 	w.Stat("appsend16_runs", 1)
 	views := buildViews(w.Env)
@@ -238,6 +248,10 @@ func famAppSend16(w *World, c *Case, rng *rand.Rand) {
 	check("c2", "client")
 	check("c3", "client")
 	check("h2", "handler")
+	check("h3", "handler")
+	if v := views["h3"]; v != nil && len(v.hdlSends) > 0 && v.hdlSends[0].Err != "" {
+		w.Stat("appsend16_second_send_after_failed_first", 1)
+	}
 	for _, r := range w.Env.Log.OpenOps() {
 		w.Violate("C05", "op-stuck-in-clean-run", "operation %s %s of rpc %s still blocked", r.Side, r.K, r.RPC)
 	}
